@@ -28,9 +28,23 @@ impl LatLng {
         Ok((rest, f64::from(value) / LAT_LONG_FACTOR))
     }
 
-    #[allow(clippy::cast_possible_truncation)]
+    #[allow(clippy::cast_possible_truncation, clippy::float_cmp)]
     fn write_lat_lon(output: &mut BitVec<u8, Msb0>, field: f64) -> Result<(), DekuError> {
-        let value = (field * LAT_LONG_FACTOR).round() as i32;
+        let product = field * LAT_LONG_FACTOR;
+        let mut rounded = product.round();
+        // `product` is itself a rounded value: it can land exactly halfway between two
+        // integers although the exact product does not, and `round` would then pick the
+        // farther one. The error of the multiplication is exactly representable and its
+        // sign tells on which side of the halfway point the exact product lies.
+        if (rounded - product).abs() == 0.5 {
+            let error = field.mul_add(LAT_LONG_FACTOR, -product);
+            if error < 0.0 && product > 0.0 {
+                rounded -= 1.0;
+            } else if error > 0.0 && product < 0.0 {
+                rounded += 1.0;
+            }
+        }
+        let value = rounded as i32;
         value.write(output, ())
     }
 }
